@@ -46,11 +46,14 @@ def main():
     a = sys.argv[1:]
     only = a[a.index('--only') + 1] if '--only' in a else None
     verbose = '-v' in a
+    props = a[a.index('--props') + 1].split(',') if '--props' in a else PROPS
     jobs = []
     if '--seeds' in a or not any(x in a for x in ('--seeds', '--refactors')):
         for d in sorted(glob.glob('/verif/seeded/C*-*')):
             name = os.path.basename(d)
             if only and only not in name:
+                continue
+            if '--props' in a and name[:3] not in props:
                 continue
             jobs.append(('seed', name, d + '/patch.diff', PROPS if '--all' in a else [name[:3]]))
     if '--refactors' in a or not any(x in a for x in ('--seeds', '--refactors')):
@@ -58,7 +61,7 @@ def main():
             name = os.path.basename(f)[:-5]
             if only and only not in name:
                 continue
-            jobs.append(('refactor', name, f, PROPS))
+            jobs.append(('refactor', name, f, props))
     bad = 0
     with concurrent.futures.ProcessPoolExecutor(max_workers=14) as ex:
         for kind, name, out, err in ex.map(job, jobs):
